@@ -69,11 +69,14 @@ def features_of(spec, root, ref):
     return f
 
 
-def run_build_case(rng, res: CaseResult, props, feat=None, inject=None, extra_steps=None, after=None, parameter_mode=True):
+def run_build_case(rng, res: CaseResult, props, feat=None, inject=None, extra_steps=None, after=None, parameter_mode=True, spec_root=None):
     """one generated spec: build (+deps), compare with the reference; violations for `props` only.
     `after(lab, ref, spec, root, result_steps, res)` can add property specific checks on the same lab."""
-    spec = S.gen_spec(rng, feat)
-    root = S.gen_root(rng, spec, feat)
+    if spec_root is not None:
+        spec, root = spec_root
+    else:
+        spec = S.gen_spec(rng, feat)
+        root = S.gen_root(rng, spec, feat)
     injected = None
     if inject:
         injected = S.inject_error(rng, spec, inject)
